@@ -1,0 +1,16 @@
+//go:build verif
+
+package rfc
+
+// Machine-checked contracts for the verification machinery in /verif (govc).
+// This file contains comments only and is compiled only with -tags verif.
+
+// ---------------------------------------------------------------------------
+// panic-freedom of hand-written byte walkers (C02)
+
+//@ func (*controlChar).Execute [C02]
+//@   requires c != nil
+//@   nopanic
+//@   assigns \fresh
+//@   loop 3 invariant 0 <= i
+//@   ensures result != nil
